@@ -26,6 +26,7 @@ RULE = (
     "sample, or bounds over a file whose keys differ in decimal length."
     ' Also: back-filled samples below everything written with readers that looked at the channel before, unsorted batches in one call, numpy integer index arguments, integer-valued float / numpy parameters, prefixes such as tmp102 / duty50%% / x.y, dictionaries nested three levels, a young unreadable file (another process writing) during the queries, directed digit-count changes inside inner files of a multi-file read.'
 )
+RULE += ' Since rounds 7-8: the in-progress file of another host with its clock ahead, read-only archives, callers that empty what they passed / received, single-index forward fill, fill with columns.'
 ASSUMPTIONS = ["overlay build of /repo; h5py 3.16 from /venv",
                "values are limited to what h5py can store (object arrays of str for lists of strings)"]
 FLOORS = {"nontrivial": 0.4}
